@@ -15,7 +15,7 @@ import (
 func init() {
 	register("C04",
 		"exactness of the Julian-Day formula and of its floating-point inverse, additivity of NextDay over month lengths, minute/hour carries, and every other numeric agreement between the stepping functions and the day count.",
-		r04_1, r04_2, r04_3, r04_4, r04_5, r04_6, r04_7, r04_8, r04_9, r07_3)
+		r04_1, r04_2, r04_3, r04_4, r04_5, r04_6, r04_7, r04_8, r04_9, r07_3, r15_7)
 }
 
 var solarComponent = map[string]int{"Solar.year": 0, "Solar.month": 1, "Solar.day": 2, "Solar.hour": 3, "Solar.minute": 4, "Solar.second": 5}
